@@ -44,6 +44,8 @@ public:
         return t;
     }
 
+    MRec step1(const Op &op) { MRec r; step(op, r); return r; }
+
     static Bytes pad_key(const Bytes &key, unsigned len, int bs) {
         Bytes k(key.begin(), key.begin() + (len <= key.size() ? len : key.size()));
         size_t prim = ((k.size() + bs - 1) / bs) * bs;
